@@ -439,10 +439,35 @@ def s_replay(vc):
     vc.ensure("starts_the_layer_then_waits_for_done", log == ["server_event:Start", "done.wait"])
 
 
+# ---------------------------------------------------------------------------------------------
+# a replay ends only through a response/error hook of the HTTP layer, and the layer is paused on its OpenConnection command until the
+# proxy core answers it: ConnectionHandler.open_connection (inherited by ReplayHandler) must tell the layer exactly once on every
+# path that is not cancelled - in particular when an addon vetoes the connection in server_connect
+
+@scenario("open_connection.layer_is_told_exactly_once", functions=["mitmproxy.proxy.server:ConnectionHandler.open_connection"])
+def s_open_connection_completes(vc):
+    from props import C09
+    outcome = vc.case("outcome", ["vetoed_in_server_connect", "connected", "refused", "no_address"])
+    proto = vc.case("proto", ["tcp", "udp"])
+    h, cmd, server, client, sem, task = C09._open_setup(vc, address=None if outcome == "no_address" else C09.ADDR, proto=proto)
+    env = C09.OpenEnv(vc, h, cmd, server, sem, "ok" if outcome in ("connected", "vetoed_in_server_connect", "no_address") else "connection refused",
+                      hook_sets_error="killed by an addon" if outcome == "vetoed_in_server_connect" else None, allow_cancel=False)
+    out = vc.call("mitmproxy.proxy.server:ConnectionHandler.open_connection", h, cmd, on_yield=env)
+    vc.ensure("no_exception", out.ok)
+    vc.ensure("layer_told_exactly_once", len(env.completed) == 1)
+    if len(env.completed) == 1:
+        vc.ensure("reply_is_an_error_iff_not_connected", isnone(env.completed[0]) == (outcome == "connected"))
+        if outcome != "connected":
+            vc.ensure("error_reply_is_a_nonempty_message", Not(isnone(env.completed[0])) and vc.truthy(env.completed[0]))
+    if outcome == "vetoed_in_server_connect":
+        vc.ensure("veto.no_connection_attempt", "connect" not in env.log)
+        vc.ensure("veto.error_hook_then_completion", env.log == ["hook:ServerConnectHook", "hook:ServerConnectErrorHook", "server_event:OpenConnectionCompleted"])
+
+
 # =============================================================================================
 # T2: real ClientPlayback + ReplayHandler + HttpLayer on a real asyncio loop (no wall-clock), fake upstream
 
-BEHAVIOURS = ["ok", "refuse", "eof", "reset", "garbage"]
+BEHAVIOURS = ["ok", "refuse", "eof", "reset", "garbage", "veto"]     # veto: an addon sets data.server.error in server_connect (e.g. Proxyserver's self-connect guard)
 BAD_KINDS = ["live", "intercepted", "tcp", "no_content", "websocket", "dns"]
 
 
@@ -500,6 +525,13 @@ def _t2_replay_run(behaviours, bad=None, bad_pos=0, action=None, action_at=0, ed
     by_path.update({f"/p{i}-edited": i for i in range(n)})
 
     class Rec:
+        def server_connect(self, data):
+            host = data.server.address[0] if data.server.address else ""
+            i = int(host[1:].split(".")[0]) if host.startswith("h") and host.endswith(".test") else None
+            obs["activity"] += 1
+            if i is not None and behaviours[i] == "veto":
+                data.server.error = "Request destination unknown / vetoed by an addon."
+
         def response(self, f):
             obs["finished"].append(id(f))
             obs["activity"] += 1
@@ -678,7 +710,7 @@ def _t2_replay_check(b, obs, inp, behaviours, action, edited=()):
     if obs["overlaps"]:
         b.fail("replay.no_overlap_at_the_server", inp, f"request {obs['overlaps'][0][0]} arrived while {obs['overlaps'][0][1]} unfinished")
     arrived = [a for a in obs["arrivals"] if isinstance(a, int)]
-    expect_order = [i for i in replayed if behaviours[i] != "refuse"]
+    expect_order = [i for i in replayed if behaviours[i] not in ("refuse", "veto")]
     if arrived != expect_order:
         b.fail("replay.arrival_order_is_queue_order", inp, f"arrived {obs['arrivals']} expected {expect_order}")
     if [a for a in obs["arrivals"] if not isinstance(a, int)]:
@@ -721,7 +753,7 @@ def bounded(tier, seed):
     import random
     b = Bounded()
     b.rule = ("real ClientPlayback (running/playback/start_replay/stop_replay/check) + real ReplayHandler + real HttpLayer under a real asyncio loop, asyncio.open_connection replaced by a "
-              "scripted upstream; queues of 1..3 replayable flows x upstream behaviour per flow {200 response, connect refused, EOF before response, reset, non-HTTP reply} x an unreplayable flow "
+              "scripted upstream; queues of 1..3 replayable flows x upstream behaviour per flow {200 response, connect refused, EOF before response, reset, non-HTTP reply, connection vetoed by an addon in server_connect} x an unreplayable flow "
               "{live, intercepted, TCP, DNS, missing content, WebSocket} inserted at any position x an action while flow k is at the server {none, replay.client.stop, late submission of the last flow, "
               "re-submission of the in-flight flow} x a flow that was edited (has a backup) before submission; checked: arrival order = queue order, no request arrives before all earlier replays fired their "
               "response/error hook, every replayed flow ends with response or error, unreplayable flows never reach the network and stay untouched, stopped flows equal their pre-replay snapshot and are not replayed, "
